@@ -11,47 +11,92 @@
                                                                        barrier duty was taken by the Trim loop
    The per-entry store steps and the Trim critical section are not logged: they are silent steps that TLC places
    between the bracketing events (linearisability by trace validation); calls of different goroutines overlap in the
-   concurrent tier. *)
+   concurrent tier.
+
+   Partial-order reduction.  The whole trace is known, so for every call the window in which its store steps can
+   have happened is known: from its Call event to its first Fired/Ret event.  A store step conflicts with a store
+   step of ANOTHER call only when both touch the same key, or both belong to never-expiring duties of one type and
+   validator (the cap eviction reaches into other keys of that type and validator), and with a Trim of its duty.  An
+   entry that has no conflicting step in any call/Trim whose window overlaps its own commutes with everything that can
+   happen inside its window, so it is executed at once and in a fixed order (priority over every other step);
+   only contended entries (`cont`) float.  Sequential traces thereby become deterministic. *)
 EXTENDS ParSigDB, TraceCommon
-VARIABLE trims        \* id -> duty: Trim requests sent but not yet executed
-tvars == <<vars, trims, tr, l>>
+VARIABLES trims,      \* id -> [duty, done, cont]: Trim requests sent; done = executed; cont = floats (see above)
+          cont        \* call id -> validators of its batch whose store step floats
+tvars == <<vars, trims, cont, tr, l>>
+MinOf(S) == CHOOSE x \in S : \A y \in S : x <= y
+\* lookahead --------------------------------------------------------------------------------------------
+CallIdx == {i \in 1..TLen : Trace[i].ev = "Call"}
+TrimIdx == {i \in 1..TLen : Trace[i].ev = "Trim"}
+EndOf(i) == LET later == {j \in (i + 1)..TLen : Trace[j].ev \in {"Fired", "Ret"} /\ Trace[j].c = Trace[i].c}
+            IN IF later = {} THEN TLen + 1 ELSE MinOf(later)
+TrimEnd(i) == LET later == {j \in (i + 1)..TLen : Trace[j].ev = "TrimDone" /\ Trace[j].id = Trace[i].id}
+              IN IF later = {} THEN TLen + 1 ELSE MinOf(later)
+Overlap(a, ae, b, be) == b < ae /\ a < be
+Conflict(d1, b1, d2, b2) == \/ d1 = d2 /\ b1.v = b2.v /\ b1.sub = b2.sub
+                            \/ d1.ex /\ d2.ex /\ d1.typ = d2.typ /\ b1.v = b2.v
+ContendedVals(i) ==
+  LET e == EndOf(i)  d == Trace[i].duty  B == SeqToSet(Trace[i].batch) IN
+  IF AbortOnReject THEN {b.v : b \in B}          \* as coded a refused entry cuts the loop short: order matters
+  ELSE {b.v : b \in {x \in B :
+          \/ \E i2 \in CallIdx \ {i} : /\ Overlap(i, e, i2, EndOf(i2)) /\ Trace[i2].status # "expired"
+                                       /\ \E b2 \in SeqToSet(Trace[i2].batch) : Conflict(d, x, Trace[i2].duty, b2)
+          \/ \E j \in TrimIdx : Overlap(i, e, j, TrimEnd(j)) /\ Trace[j].duty = d}}
+TrimContended(j) == \E i \in CallIdx : /\ Overlap(j, TrimEnd(j), i, EndOf(i)) /\ Trace[i].duty = Trace[j].duty
+                                        /\ Trace[i].status # "expired"
+FreeCalls == {c \in DOMAIN call : call[c].todo \ cont[c] # {}}
+FreeTrims == {i \in DOMAIN trims : ~trims[i].done /\ ~trims[i].cont}
+Urgent == FreeCalls # {} \/ FreeTrims # {}
 PartOf(e) == [share |-> e.share, root |-> e.root, sig |-> e.sig, sub |-> e.sub]
 PartSet(s) == {PartOf(s[i]) : i \in DOMAIN s}
 BatchOf(s) == [v \in {s[i].v : i \in DOMAIN s} |-> PartOf(s[CHOOSE i \in DOMAIN s : s[i].v = v])]
 
-TraceInit == Init0 /\ TrInit /\ trims = <<>> /\ thr = Traces[tr][1].t
-TReset == IsEvent("Reset") /\ UNCHANGED <<vars, trims>>
-TCall == /\ IsEvent("Call")
+TraceInit == Init0 /\ TrInit /\ trims = <<>> /\ cont = <<>> /\ thr = Traces[tr][1].t
+TReset == IsEvent("Reset") /\ UNCHANGED <<vars, trims, cont>>
+TCall == /\ IsEvent("Call") /\ ~Urgent
          /\ Len(Ev.batch) = Cardinality({Ev.batch[i].v : i \in DOMAIN Ev.batch})
          /\ (Ev.status = "exempt") = (Ev.duty.ex /\ Ev.status # "expired")
          /\ CallBegin(Ev.c, Ev.duty, BatchOf(Ev.batch), Ev.internal, Ev.status = "expired")
+         /\ cont' = Put(cont, Ev.c, ContendedVals(l))
          /\ UNCHANGED trims
-TStore == \E c \in DOMAIN call : \E v \in call[c].todo : StoreEntry(c, v) /\ Silent /\ UNCHANGED trims
-TFired == /\ IsEvent("Fired") /\ Ev.c \in DOMAIN call
+TStoreFree == /\ FreeCalls # {}
+              /\ LET c == MinOf(FreeCalls) IN StoreEntry(c, MinOf(call[c].todo \ cont[c]))
+              /\ Silent /\ UNCHANGED <<trims, cont>>
+TStore == /\ ~Urgent
+          /\ \E c \in DOMAIN call : \E v \in call[c].todo : StoreEntry(c, v)
+          /\ Silent /\ UNCHANGED <<trims, cont>>
+TFired == /\ IsEvent("Fired") /\ ~Urgent /\ Ev.c \in DOMAIN call
           /\ FireSubs(Ev.c)
           /\ Ev.duty = call[Ev.c].duty
           /\ \A i \in DOMAIN Ev.sets : Len(Ev.sets[i].parts) = Cardinality(PartSet(Ev.sets[i].parts))
           /\ Len(Ev.sets) = Cardinality({Ev.sets[i].v : i \in DOMAIN Ev.sets})
           /\ {[v |-> Ev.sets[i].v, S |-> PartSet(Ev.sets[i].parts)] : i \in DOMAIN Ev.sets}
                = {[v |-> o.v, S |-> o.S] : o \in call[Ev.c].out}
-          /\ UNCHANGED trims
-TInternal == /\ IsEvent("Internal") /\ Ev.c \in DOMAIN call
+          /\ UNCHANGED <<trims, cont>>
+TInternal == /\ IsEvent("Internal") /\ ~Urgent /\ Ev.c \in DOMAIN call
              /\ InternalSubs(Ev.c)
              /\ Ev.duty = call[Ev.c].duty
              /\ Len(Ev.batch) = Cardinality({Ev.batch[i].v : i \in DOMAIN Ev.batch})
              /\ BatchOf(Ev.batch) = call[Ev.c].batch
-             /\ UNCHANGED trims
-TRet == /\ IsEvent("Ret") /\ Ev.c \in DOMAIN call
+             /\ UNCHANGED <<trims, cont>>
+TRet == /\ IsEvent("Ret") /\ ~Urgent /\ Ev.c \in DOMAIN call
         /\ CallEnd(Ev.c)
         /\ Ev.err = call[Ev.c].err
+        /\ cont' = Drop(cont, Ev.c)
         /\ UNCHANGED trims
-TTrim == /\ IsEvent("Trim") /\ Ev.id \notin DOMAIN trims
-         /\ trims' = Put(trims, Ev.id, [duty |-> Ev.duty, done |-> FALSE]) /\ UNCHANGED vars
-TDoTrim == \E i \in DOMAIN trims : /\ ~trims[i].done /\ Trim(trims[i].duty)
-                                    /\ trims' = [trims EXCEPT ![i].done = TRUE] /\ Silent
-TTrimDone == /\ IsEvent("TrimDone") /\ Ev.id \in DOMAIN trims /\ trims[Ev.id].done
-             /\ trims' = Drop(trims, Ev.id) /\ UNCHANGED vars
-TraceNext == TReset \/ TCall \/ TStore \/ TFired \/ TInternal \/ TRet \/ TTrim \/ TDoTrim \/ TTrimDone
+TTrim == /\ IsEvent("Trim") /\ ~Urgent /\ Ev.id \notin DOMAIN trims
+         /\ trims' = Put(trims, Ev.id, [duty |-> Ev.duty, done |-> FALSE, cont |-> TrimContended(l)])
+         /\ UNCHANGED <<vars, cont>>
+TDoTrimFree == /\ FreeCalls = {} /\ FreeTrims # {}
+               /\ LET i == MinOf(FreeTrims) IN Trim(trims[i].duty) /\ trims' = [trims EXCEPT ![i].done = TRUE]
+               /\ Silent /\ UNCHANGED cont
+TDoTrim == /\ ~Urgent
+           /\ \E i \in DOMAIN trims : /\ ~trims[i].done /\ Trim(trims[i].duty)
+                                      /\ trims' = [trims EXCEPT ![i].done = TRUE]
+           /\ Silent /\ UNCHANGED cont
+TTrimDone == /\ IsEvent("TrimDone") /\ ~Urgent /\ Ev.id \in DOMAIN trims /\ trims[Ev.id].done
+             /\ trims' = Drop(trims, Ev.id) /\ UNCHANGED <<vars, cont>>
+TraceNext == TReset \/ TCall \/ TStoreFree \/ TDoTrimFree \/ TStore \/ TFired \/ TInternal \/ TRet \/ TTrim \/ TDoTrim \/ TTrimDone
 TraceSpec == TraceInit /\ [][TraceNext]_tvars
 Mark == /\ CheckInv("AtMostOnce", AtMostOnce) /\ CheckInv("MatchingOK", MatchingOK)
         /\ CheckInv("OnePerVal", OnePerVal) /\ CheckInv("OneSharePerKey", OneSharePerKey)
